@@ -92,6 +92,18 @@ func init() {
 	wire.VerifYield = hookYield
 	wire.VerifLock = hookLock
 	wire.VerifGoTop = hookGoTop
+	wire.VerifPending = hookPending
+}
+
+// hookPending: waiting writers per mutex (E2 only; E1 has one goroutine per
+// connection and reports a busy mutex at once).
+//
+//go:norace
+func hookPending(id any, op int) bool {
+	if k := curKernel; k != nil {
+		return k.Pending(id, op)
+	}
+	return false
 }
 
 // timeoutError is what a middleware that waited for something returns.
